@@ -167,7 +167,7 @@ impl Property for C13 {
         "C13"
     }
     fn rule(&self) -> String {
-        "byte strings for verify / verify_rln_proof / verify_with_roots (message and roots buffers) / recover_id_secret (both buffers), derived from a pool of accepted messages: truncation to a generated length (and every truncation length, enumerated, for the first pool message), declared signal length in {0, len-1, len+1, 2^31, 2^32, 2^63, u64::MAX-7, u64::MAX, len+tail}, random bytes in one 32-byte field, fully random strings of length 0..600+, aliases v+k*p (k=1..4) of any subset of the five public values, single bit flips, trailing garbage, arbitrary roots buffers and root sets with a trailing partial element. \
+        "byte strings for verify / verify_rln_proof / verify_with_roots (message and roots buffers) / recover_id_secret (both buffers; each altered message is paired with another member's message, with itself and — in both orders — with the unaltered message it was derived from, which yields equal x with different y), derived from a pool of accepted messages: truncation to a generated length (and every truncation length, enumerated, for the first pool message), declared signal length in {0, len-1, len+1, 2^31, 2^32, 2^63, u64::MAX-7, u64::MAX, len+tail}, random bytes in one 32-byte field, fully random strings of length 0..600+, aliases v+k*p (k=1..4) of any subset of the five public values, single bit flips, trailing garbage, arbitrary roots buffers and root sets with a trailing partial element. \
          Oracle: never a panic; true only if proof and value bytes are identical to the accepted message's canonical bytes, Keccak_ref(signal) = x and the root condition holds; and an input that still is the accepted message must be accepted. \
          non-trivial = truncation inside a field, an inconsistent length field, an alias, a bit flip or random field content; distinct by case content".into()
     }
@@ -246,6 +246,15 @@ impl Property for C13 {
                 check_recover(pool, &input, &other.msg, &mut o);
                 if !o.failed() {
                     check_recover(pool, &input, &input, &mut o);
+                }
+                // the altered message against the unaltered one it was derived from: same external
+                // nullifier and (unless the alteration hit it) same x, possibly another y
+                if !o.failed() {
+                    let original = verify_input(&g.msg, &g.signal);
+                    check_recover(pool, &input, &original, &mut o);
+                    if !o.failed() {
+                        check_recover(pool, &original, &input, &mut o);
+                    }
                 }
             }
         }
